@@ -73,6 +73,12 @@ CHECKS = {
         note="OS-level thread interleavings are only sampled; fused sub-tasks are observed through the unfused plan",
         ref="§3 C05",
     ),
+    "C15": dict(
+        technique="stateful (rule-based state machine) property-based testing of session histories with fresh-interpreter reference observations, plus injected faults and dataset rewrites",
+        text="A Hypothesis RuleBasedStateMachine drives build / optimize / keep-optimized / compute / divisions / len / discard+gc / injected task failure / dataset rewrite steps over a pool of 58 queries that overflows every planner cache; each observation must equal the one obtained by running that query alone in a fresh interpreter. Bounded exploration of histories (seeded), plus hand-written histories.",
+        note="parquet plan names are not compared (they contain the session's own path); references cached per run under /verif/.work",
+        ref="§3 C15",
+    ),
     "C16": dict(
         technique="round-trip property-based testing across interpreters (pickle -> fresh process with empty caches) over generated programs x plan forms",
         text="Generated programs in 4 forms are pickled, loaded by a fresh interpreter and must report the same name, schema, divisions, npartitions and computed result. Bounded exploration; one known finding (D35, name of imported graphs; root cause in dask's tokenizer).",
